@@ -239,6 +239,24 @@ def _is_simple(e: ast.AST) -> bool:
     return False
 
 
+_PURE_BUILTINS = ("bool", "len", "str", "int", "float", "tuple", "list", "type", "repr", "isinstance", "callable")
+
+
+def _is_pure_conversion(e: ast.AST) -> bool:
+    """bool(x), len(x), type(x) ... of plain operands, comparisons / boolean combinations of such: no effects, any order."""
+    if _is_simple(e):
+        return True
+    if isinstance(e, ast.Call) and isinstance(e.func, ast.Name) and e.func.id in _PURE_BUILTINS and not e.keywords:
+        return all(_is_pure_conversion(a) and not isinstance(a, ast.Starred) for a in e.args)
+    if isinstance(e, ast.UnaryOp) and isinstance(e.op, ast.Not):
+        return _is_pure_conversion(e.operand)
+    if isinstance(e, ast.BoolOp):
+        return all(_is_pure_conversion(v) for v in e.values)
+    if isinstance(e, ast.Compare) and all(isinstance(o, (ast.Is, ast.IsNot, ast.Eq, ast.NotEq, ast.Lt, ast.LtE, ast.Gt, ast.GtE)) for o in e.ops):
+        return _is_pure_conversion(e.left) and all(_is_pure_conversion(c) for c in e.comparators)
+    return False
+
+
 class Inliner:
     MAX_DEPTH = 3
 
@@ -577,9 +595,22 @@ class Inliner:
                 if expr is None:
                     return n
                 bound = inl.bind(t, n)
-                if bound is None or bound[1]:
-                    return n  # would need temporaries: leave for statement-level handling
-                mapping, _ = bound
+                if bound is None:
+                    return n
+                mapping, pre_ = bound
+                if pre_:
+                    # arguments that are not plain names: substitutable in place when they are pure (builtin conversions
+                    # of plain operands) and the helper's expression uses the parameter once; otherwise temporaries would
+                    # be needed - left for statement-level handling
+                    for a_ in pre_:
+                        tmp_, v_ = a_.targets[0].id, a_.value  # type: ignore[union-attr]
+                        uses_ = sum(1 for x in ast.walk(expr) for p_, mv in mapping.items() if isinstance(mv, ast.Name) and mv.id == tmp_ and isinstance(x, ast.Name) and x.id == p_)
+                        if not (_is_pure_conversion(v_) and uses_ <= 1):
+                            return n
+                    for a_ in pre_:
+                        for p_, mv in list(mapping.items()):
+                            if isinstance(mv, ast.Name) and mv.id == a_.targets[0].id:  # type: ignore[union-attr]
+                                mapping[p_] = a_.value
                 if any(sum(1 for x in ast.walk(expr) if isinstance(x, ast.Name) and x.id == p) > 1 and not _is_simple(v) for p, v in mapping.items()):
                     return n
                 new = _subst_expr(expr, mapping)
@@ -846,6 +877,59 @@ def simplify_locals(fi: FunctionInfo, body: list[ast.stmt], log: list[str]) -> b
                 if any(isinstance(n, (ast.FunctionDef, ast.AsyncFunctionDef, ast.Lambda)) and any(isinstance(x, ast.Name) and x.id == name for x in ast.walk(n)) for st in body for n in ast.walk(st)):
                     continue
                 value = s1.value
+                # (d) a local lambda that is only ever applied: `spawn = lambda: EXPR` ... `spawn()` -> EXPR
+                if not multi and isinstance(value, ast.Lambda) and loads:
+                    la = value.args
+                    lparams = [a.arg for a in la.posonlyargs + la.args]
+                    plain = not (la.vararg or la.kwarg or la.kwonlyargs or la.defaults or la.kw_defaults)
+                    calls = [c for st in body for c in ast.walk(st) if isinstance(c, ast.Call) and isinstance(c.func, ast.Name) and c.func.id == name]
+                    applied = plain and len(calls) == len(loads) and all(len(c.args) == len(lparams) and not c.keywords and all(_is_simple(a) and not isinstance(a, ast.Starred) for a in c.args) for c in calls)
+                    free = {n.id for n in ast.walk(value.body) if isinstance(n, ast.Name)} - set(lparams)
+                    stable = all(len(_name_uses(body, fr)[1]) <= (0 if fr in params else 1) for fr in free)
+                    if applied and stable:
+                        lam = value
+
+                        class _Beta(ast.NodeTransformer):
+                            def visit_Call(self, c: ast.Call):  # noqa: N802
+                                self.generic_visit(c)
+                                if isinstance(c.func, ast.Name) and c.func.id == name:
+                                    return ast.copy_location(_subst_expr(lam.body, dict(zip(lparams, c.args))), c)
+                                return c
+
+                        for blk in blocks(body):
+                            for bj, st in enumerate(blk):
+                                if st is s1:
+                                    blk[bj] = ast.copy_location(ast.Pass(), s1)
+                        for bi, st in enumerate(body):
+                            body[bi] = ast.fix_missing_locations(_Beta().visit(st))
+                        log.append(f"{fi.short}: applied local lambda `{name}` at its call site(s)")
+                        changed = again = True
+                        break
+                # (e) a tuple assembled only to be spread into calls: `packed = (first, *rest)` ... `f(*packed)` -> `f(first, *rest)`
+                if not multi and isinstance(value, (ast.Tuple, ast.List)) and loads and all(_is_simple(x.value if isinstance(x, ast.Starred) else x) for x in value.elts):
+                    starred = [x for st in body for c in ast.walk(st) if isinstance(c, ast.Call) for x in c.args if isinstance(x, ast.Starred) and isinstance(x.value, ast.Name) and x.value.id == name]
+                    free = {n.id for x in value.elts for n in ast.walk(x) if isinstance(n, ast.Name)}
+                    stable = all(len(_name_uses(body, fr)[1]) <= (0 if fr in params else 1) for fr in free)
+                    if len(starred) == len(loads) and stable:
+                        for st in body:
+                            for c in ast.walk(st):
+                                if isinstance(c, ast.Call) and any(x in starred for x in c.args):
+                                    new_args: list[ast.expr] = []
+                                    for x in c.args:
+                                        if any(x is y for y in starred):
+                                            new_args.extend(clone(el) for el in value.elts)
+                                        else:
+                                            new_args.append(x)
+                                    c.args = new_args
+                        for blk in blocks(body):
+                            for bj, st in enumerate(blk):
+                                if st is s1:
+                                    blk[bj] = ast.copy_location(ast.Pass(), s1)
+                        for st in body:
+                            ast.fix_missing_locations(st)
+                        log.append(f"{fi.short}: spread the packed arguments `{name}` at the call(s) they are unpacked into")
+                        changed = again = True
+                        break
                 # (a) bound-method alias
                 if not multi and isinstance(value, ast.Attribute) and loads:
                     call_funcs = [c.func for st in body for c in ast.walk(st) if isinstance(c, ast.Call)]
@@ -1072,5 +1156,206 @@ def distinguish_cancelled_errors(prog: Program) -> list[str]:
                     count += 1
         if count:
             log.append(f"{mod.name}: {count} reference(s) to a CancelledError class renamed by the class they resolve to")
+    return log
+
+
+# ---------------------------------------------------------------------------------------------- module-level partial application
+def specialise_module_closures(prog: Program) -> list[str]:
+    """`NAME = maker(<constants / globals>)` at module level, where `maker` is a module function whose whole body is
+    one nested function and `return <that function>`, is replaced by `def NAME(<the nested function's parameters>)`
+    with the maker's parameters substituted: the function the assignment binds, written out.  Rule tables that name
+    functions (validator factories, callbacks) then find a function again."""
+    log: list[str] = []
+    for mod in prog.modules.values():
+        makers: dict[str, ast.FunctionDef] = {s.name: s for s in mod.tree.body if isinstance(s, ast.FunctionDef)}
+        new_body: list[ast.stmt] = []
+        changed = 0
+        for st in mod.tree.body:
+            tgt = st.target if isinstance(st, ast.AnnAssign) else (st.targets[0] if isinstance(st, ast.Assign) and len(st.targets) == 1 else None)
+            val = getattr(st, "value", None)
+            made = _specialised(makers, tgt, val) if isinstance(tgt, ast.Name) and isinstance(val, ast.Call) else None
+            if made is None:
+                new_body.append(st)
+            else:
+                new_body.append(ast.fix_missing_locations(ast.copy_location(made, st)))
+                changed += 1
+        if changed:
+            mod.tree.body = new_body
+            log.append(f"{mod.name}: {changed} module-level closure(s) written out as the function they bind")
+    return log
+
+
+def _specialised(makers: dict[str, ast.FunctionDef], tgt: ast.Name, call: ast.Call) -> ast.FunctionDef | None:
+    if not (isinstance(call.func, ast.Name) and call.func.id in makers):
+        return None
+    mk = makers[call.func.id]
+    body = [s for s in mk.body if not (isinstance(s, ast.Expr) and isinstance(s.value, ast.Constant) and isinstance(s.value.value, str))]
+    if mk.decorator_list or len(body) != 2 or not isinstance(body[0], ast.FunctionDef) or not (isinstance(body[1], ast.Return) and isinstance(body[1].value, ast.Name) and body[1].value.id == body[0].name):
+        return None
+    inner = body[0]
+    if inner.decorator_list or mk.args.vararg or mk.args.kwarg:
+        return None
+    simple = lambda e: isinstance(e, ast.Constant) or isinstance(e, ast.Name) or (isinstance(e, ast.Attribute) and dotted(e) is not None)  # noqa: E731
+    pos = [a.arg for a in mk.args.posonlyargs + mk.args.args]
+    bound: dict[str, ast.AST] = {}
+    pd = mk.args.posonlyargs + mk.args.args
+    for prm, dv in zip(pd[len(pd) - len(mk.args.defaults):], mk.args.defaults):
+        bound[prm.arg] = dv
+    for prm, dv in zip(mk.args.kwonlyargs, mk.args.kw_defaults):
+        if dv is not None:
+            bound[prm.arg] = dv
+    if len(call.args) > len(pos) or any(isinstance(a, ast.Starred) for a in call.args) or any(k.arg is None for k in call.keywords):
+        return None
+    for i, a in enumerate(call.args):
+        bound[pos[i]] = a
+    for k in call.keywords:
+        bound[k.arg] = k.value  # type: ignore[index]
+    names = set(pos) | {a.arg for a in mk.args.kwonlyargs}
+    if set(bound) != names or not all(simple(v) for v in bound.values()):
+        return None
+    # nothing inside may re-bind a maker parameter (a store, a parameter or a comprehension target of the same name)
+    for n in ast.walk(inner):
+        if isinstance(n, ast.Name) and not isinstance(n.ctx, ast.Load) and n.id in names:
+            return None
+        if isinstance(n, ast.arg) and n.arg in names:
+            return None
+        if isinstance(n, (ast.Nonlocal, ast.Global)):
+            return None
+    new = clone(inner)
+    new.name = tgt.id
+
+    class T(ast.NodeTransformer):
+        def visit_Name(self, n: ast.Name):  # noqa: N802
+            if n.id in bound and isinstance(n.ctx, ast.Load):
+                return clone(bound[n.id])
+            return n
+
+    new.body = [T().visit(s) for s in new.body]
+    return new
+
+
+# ---------------------------------------------------------------------------------------------- roles of private module-level names
+# Private functions / classes that rule tables address by name are found by the role they play for a public entry point
+# (the wrapper factories a decorator dispatches to, the wrapper class it instantiates, the factory registered for a
+# VALIDATORS key); when the name differs from the one the tables use, the module is analysed under the table's name.
+_TWINS = {  # module -> (public decorator, name for the sync factory, name for the async factory, name of the wrapper they return)
+    "haiway.helpers.retries": ("retry", "_wrap_sync", "_wrap_async", "wrapped"),
+    "haiway.helpers.tracing": ("traced", "_traced_sync", "_traced_async", None),
+}
+_WRAPPER_CLASSES = {  # module -> (public decorator, {is-async of __call__: class name})
+    "haiway.helpers.caching": ("cache", {False: "_SyncCache", True: "_AsyncCache"}),
+    "haiway.helpers.throttling": ("throttle", {True: "_AsyncThrottle"}),
+    "haiway.helpers.timeouted": ("timeout", {True: "_AsyncTimeout"}),
+    "haiway.helpers.asynchrony": ("asynchronous", {True: "_ExecutorWrapper"}),
+}
+_INNER_DECORATOR = {  # module -> (public decorator, name of the nested function applied to the decorated function)
+    "haiway.helpers.retries": ("retry", "_wrap"),
+    "haiway.helpers.caching": ("cache", "_wrap"),
+    "haiway.helpers.throttling": ("throttle", "_wrap"),
+    "haiway.helpers.timeouted": ("timeout", "_wrap"),
+    "haiway.helpers.asynchrony": ("asynchronous", "wrap"),
+}
+_VALIDATOR_KEYS = {
+    "Any": "_prepare_validator_of_any", "NoneType": "_prepare_validator_of_none", "Missing": "_prepare_validator_of_missing", "type": "_prepare_validator_of_type",
+    "tuple": "_prepare_validator_of_tuple", "frozenset": "_prepare_validator_of_set", "Set": "_prepare_validator_of_set", "Sequence": "_prepare_validator_of_sequence",
+    "Mapping": "_prepare_validator_of_mapping", "Literal": "_prepare_validator_of_literal", "Union": "_prepare_validator_of_union", "UnionType": "_prepare_validator_of_union",
+    "Callable": "_prepare_validator_of_callable",
+}  # fmt: skip
+
+
+def _impl(mod, name: str):
+    """The implementation (last, non-overload) top-level definition of `name`."""
+    found = None
+    for s in mod.tree.body:
+        if isinstance(s, (ast.FunctionDef, ast.AsyncFunctionDef, ast.ClassDef)) and s.name == name:
+            found = s
+    return found
+
+
+def _returned_nested(fn: ast.FunctionDef):
+    nested = {s.name: s for s in ast.walk(fn) if isinstance(s, (ast.FunctionDef, ast.AsyncFunctionDef)) and s is not fn}
+    # `return wrapped` or `return mimic_function(function, within=wrapped)`: the nested function the result is made of
+    rets = {x.id for r in ast.walk(fn) if isinstance(r, ast.Return) and r.value is not None for x in ast.walk(r.value) if isinstance(x, ast.Name) and x.id in nested and not any(r is y for nd in nested.values() for y in ast.walk(nd))}
+    return [nested[n] for n in sorted(rets)]
+
+
+def private_name_role_renames(prog: Program) -> list[str]:
+    log: list[str] = []
+    for mod in prog.modules.values():
+        top = {s.name: s for s in mod.tree.body if isinstance(s, (ast.FunctionDef, ast.AsyncFunctionDef, ast.ClassDef))}
+        ren: dict[str, str] = {}
+        nested_ren: list[tuple[ast.AST, str, str]] = []
+        if mod.name in _TWINS:
+            pub_name, c_sync, c_async, c_inner = _TWINS[mod.name]
+            pub = _impl(mod, pub_name)
+            if pub is not None:
+                called = {c.func.id for c in ast.walk(pub) if isinstance(c, ast.Call) and isinstance(c.func, ast.Name) and c.func.id.startswith("_") and isinstance(top.get(c.func.id), ast.FunctionDef)}
+                kinds: dict[bool, list[str]] = {False: [], True: []}
+                for n in called:
+                    rn = _returned_nested(top[n])
+                    if len(rn) == 1:
+                        kinds[isinstance(rn[0], ast.AsyncFunctionDef)].append(n)
+                for is_async, canon in ((False, c_sync), (True, c_async)):
+                    if len(kinds[is_async]) == 1:
+                        actual = kinds[is_async][0]
+                        if actual != canon and canon not in top:
+                            ren[actual] = canon
+                        rn = _returned_nested(top[actual])
+                        if c_inner is not None and rn[0].name != c_inner:
+                            nested_ren.append((top[actual], rn[0].name, c_inner))
+        if mod.name in _WRAPPER_CLASSES:
+            pub_name, by_kind = _WRAPPER_CLASSES[mod.name]
+            pub = _impl(mod, pub_name)
+            if pub is not None:
+                made = {c.func.id for c in ast.walk(pub) if isinstance(c, ast.Call) and isinstance(c.func, ast.Name) and c.func.id.startswith("_") and isinstance(top.get(c.func.id), ast.ClassDef)}
+                kinds_c: dict[bool, list[str]] = {False: [], True: []}
+                for n in made:
+                    call_m = next((m for m in top[n].body if isinstance(m, (ast.FunctionDef, ast.AsyncFunctionDef)) and m.name == "__call__"), None)
+                    if call_m is not None:
+                        kinds_c[isinstance(call_m, ast.AsyncFunctionDef)].append(n)
+                for is_async, canon in by_kind.items():
+                    if len(kinds_c[is_async]) == 1 and kinds_c[is_async][0] != canon and canon not in top:
+                        ren[kinds_c[is_async][0]] = canon
+        if mod.name in _INNER_DECORATOR:
+            pub_name, canon = _INNER_DECORATOR[mod.name]
+            pub = _impl(mod, pub_name)
+            if pub is not None:
+                inner = [s for s in ast.walk(pub) if isinstance(s, (ast.FunctionDef, ast.AsyncFunctionDef)) and s is not pub]
+                direct = [s for s in inner if not any(s is x for o in inner if o is not s for x in ast.walk(o))]
+                if len(direct) == 1 and direct[0].name != canon:
+                    nested_ren.append((pub, direct[0].name, canon))
+        if mod.name == "haiway.state.validation":
+            for st in mod.tree.body:
+                tgt = st.target if isinstance(st, ast.AnnAssign) else (st.targets[0] if isinstance(st, ast.Assign) and len(st.targets) == 1 else None)
+                if isinstance(tgt, ast.Name) and tgt.id == "VALIDATORS" and isinstance(getattr(st, "value", None), ast.Dict):
+                    wanted: dict[str, set[str]] = {}
+                    for k, v in zip(st.value.keys, st.value.values):
+                        kn = (dotted(k) or "").rsplit(".", 1)[-1] if k is not None else ""
+                        if kn in _VALIDATOR_KEYS and isinstance(v, ast.Name):
+                            wanted.setdefault(v.id, set()).add(_VALIDATOR_KEYS[kn])
+                    for actual, canons in wanted.items():
+                        if len(canons) == 1:
+                            canon = next(iter(canons))
+                            if actual != canon and canon not in top and actual in top and list(wanted).count(actual) == 1:
+                                ren[actual] = canon
+        if not ren and not nested_ren:
+            continue
+        for outer, actual, canon in nested_ren:
+            for n in ast.walk(outer):
+                if isinstance(n, (ast.FunctionDef, ast.AsyncFunctionDef)) and n.name == actual:
+                    n.name = canon
+                elif isinstance(n, ast.Name) and n.id == actual:
+                    n.id = canon
+            log.append(f"{mod.name}: nested function {getattr(outer, 'name', '?')}.{actual} analysed as {canon}")
+        if ren:
+            for n in ast.walk(mod.tree):
+                if isinstance(n, (ast.FunctionDef, ast.AsyncFunctionDef, ast.ClassDef)) and n.name in ren and any(n is s for s in mod.tree.body):
+                    n.name = ren[n.name]
+                elif isinstance(n, ast.Name) and n.id in ren:
+                    n.id = ren[n.id]
+                elif isinstance(n, ast.Constant) and isinstance(n.value, str) and n.value in ren:
+                    n.value = ren[n.value]  # forward references in annotations / __all__
+            for actual, canon in ren.items():
+                log.append(f"{mod.name}: private name {actual} analysed as {canon} (the role it plays)")
     return log
 
